@@ -104,7 +104,12 @@ def tmpl_kill_ring(r, lines):
 def tmpl_track(r, lines):
     # --track: the cursor stays on its item while the list is rebuilt around it (exclusions above and
     # below it, query changes that keep it)
-    steps = [[('pos', str(r.randint(2, max(2, min(len(lines), 8)))))]]
+    k = r.randint(3, max(3, min(len(lines), 8)))
+    steps = [[('pos', str(k))]]
+    # an item before the tracked one is thrown out of the list (a minor revision of the input): the
+    # cursor must stay on its item, whose position changes
+    steps.append([('first', None), ('toggle', None), ('pos', str(k))])
+    steps.append([('exclude-multi', None)])
     for _ in range(r.randint(1, 3)):
         k = r.random()
         if k < 0.5:
